@@ -22,7 +22,8 @@ for d in sorted((ROOT / "seeded").glob("*/meta.json")):
     n += 1
     c += bool(m["check_result"]["caught"])
     w = m["check_result"].get("first_witness") or {}
-    out.append(f"| {m['id']} | {m['property']} | {w.get('monitor', '-')}: {w.get('mechanism', '-')} | {'yes' if m.get('missed_by_the_checks_as_first_built') else 'no'} | {m.get('strengthening') or ''} |")
+    caught_by = f"{w.get('monitor', '-')}: {w.get('mechanism', '-')}" if m["check_result"]["caught"] else "NOT CAUGHT"
+    out.append(f"| {m['id']} | {m['property']} | {caught_by} | {'yes' if m.get('missed_by_the_checks_as_first_built') else 'no'} | {m.get('strengthening') or m.get('not_caught_reason') or ''} |")
 out += ["", f"{c} of {n} seeded changes are reported by the quick check of their property (all {n} pass the repository's baseline tests and fail their author's demonstration)."]
 bres = json.loads((ROOT / "selftest" / "benign_results.json").read_text()) if (ROOT / "selftest" / "benign_results.json").exists() else []
 out += ["", "### 12.3 Behaviour-preserving refactorings (`selftest/benign/`, run by `selftest/run_benign.py`)", "",
